@@ -4,6 +4,9 @@ Design: Pipeline.tla (export decision table: a raising statement is wrapped in p
 expected, otherwise the function is marked xfail(strict); ExportVerdict).  P1: the file every
 end-to-end run exports is run with the real pytest in a fresh interpreter against the original
 module; per-test outcomes are validated by TLC (PipelineTrace.tla: FileImportsCleanly, TestVerdicts).
+P2: TLC enumerates small suites over harness/sut/pp_sut.py (MC_PipelineProg); real assertion
+generation (with irregularly filtered assertions), generator._minimize (all strategies/directions)
+and export; the exported functions are executed and must pass.
 """
 
 from __future__ import annotations
@@ -42,9 +45,17 @@ def run(ctx: Ctx) -> None:
                lambda r, e: f"run {r['cfg']}: {json.dumps(e)[:600]}")
     for t in traces[:2]:
         ctx.sample(t["ev"][:4])
+    n_e2e = ctx.evaluations
+    # P2: TLC-enumerated suites over harness/sut/pp_sut.py through the real assertion generation (all
+    # assertions, and assertions kept on every other statement only, as after the mutation-analysis
+    # filter), generator._minimize with every strategy and direction, export; every exported function
+    # is executed against the module
+    ctx.evaluations = n_e2e + P.replay_progs(ctx, "C18", {"TestVerdicts"})
 
 
 def replay(ctx: Ctx, rec: dict) -> int:
+    if "replay" in rec["behaviour"]:
+        return P.replay_one(ctx, rec, "C18", {"TestVerdicts"})
     from harness.adapters import e2e  # noqa: PLC0415
 
     r = e2e.run_many([rec["behaviour"]])[0]
